@@ -103,6 +103,12 @@ TEMPLATES = [
                 ("azi", "B", "P", "first"), ("sd", "B", "P", None, None), ("za", "B", "P", None, None), ("dir", "A", "B"),
                 ("dir", "A", "P")],
          pred=_noncol(("A", "B", "P")), zrule="steep"),
+    # azimuth + distance polar method in both directions (the bearing rules of the approximate coordinates
+    # depend on the coordinate frame and, through the id-sorted azimuth pairs, on the id order of the points)
+    dict(name="aziframe", dim=2, roles=[("A", "fix"), ("B", "fix"), ("P", "new")],
+         cands=[("azi", "A", "P"), ("dist", "A", "P"), ("azi", "P", "B"), ("dist", "B", "P"), ("azi", "B", "P"),
+                ("dir", "A", "B"), ("dir", "A", "P")],
+         pred=_noncol(("A", "B", "P"))),
     # chains of mechanisms: a levelling line Q-R-S that reaches a known height only through Q, whose
     # height is trigonometric (zenith angles from A, B; xy of Q, R, S fixed) ...
     dict(name="levtrig", dim=3, roles=[("A", "fix"), ("B", "fix"), ("Q", "newz"), ("R", "newz"), ("S", "newz")],
@@ -146,18 +152,32 @@ TEMPLATES = [
 TPL = {t["name"]: t for t in TEMPLATES}
 
 # (template, number of placements) per tier
+from n06_net import FRAMES
+# complete product axes-xy x angles = 16 frames; quick sub-product: every axes-xy value once, the
+# sense alternating so that 4 frames are consistent (axes and angles of equal handedness) and 4 are not
+ALLF = list(FRAMES)
+HALF = [(a, ("left-handed", "right-handed")[(i + i // 4) % 2]) for i, a in enumerate(["ne", "sw", "es", "wn", "en", "nw", "se", "ws"])]
+IDS = [False, True]
+
 TIERS = {
     "quick": [("polar", 1), ("intersection", 1), ("resection", 1, 7), ("levelling", 1), ("vectors1", 1, 5),
               ("polar3d", 1, 8), ("polar3d-ih", 1, 8), ("polar3d-ihneg", 1, 8),
               ("free3d-ihneg", 1, 7),
               ("tower3d-ihneg", 1, 8), ("tower3d-ihpos", 1, 8), ("towerst-ihneg", 1, 7), ("towerst-ihpos", 1, 7), ("traverse", 1), ("trig3d", 1, 8), ("vecmix", 1, 6),
-              ("azi3d", 1, 7), ("levtrig", 1, 7), ("levvec", 1, 6)],
-    "thorough": [("polar", 4), ("intersection", 3), ("resection", 3), ("traverse", 2), ("polar2", 2), ("coords", 2),
+              ("azi3d", 1, 7), ("levtrig", 1, 7), ("levvec", 1, 6),
+              ("aziframe", 1, 5, {"frames": HALF, "idrev": IDS}),
+              ("polar", 1, None, {"frames": [("sw", "left-handed"), ("en", "right-handed"), ("nw", "left-handed")]})],
+    "thorough": [("polar", 4), ("intersection", 3), ("resection", 3), ("traverse", 2), ("polar2", 1), ("coords", 1),
                  ("levelling", 1), ("levelling3", 1), ("vectors", 1), ("vectors1", 1), ("polar3d", 1), ("polar3d-ih", 2),
                  ("polar3d-ihmix", 1), ("polar3d-ihneg", 1), ("polar3d-ihpos", 1), ("free3d", 1), ("free3d-ihneg", 1),
                  ("free3d-ihpos", 1), ("tower3d", 1), ("tower3d-ihneg", 1), ("tower3d-ihpos", 1), ("towerst-ihneg", 1),
                  ("towerst-ihpos", 1), ("trig3d", 1), ("trig3d-ih", 2), ("chain3d", 1), ("traverse3", 1), ("vecmix", 1),
-                 ("azi3d", 2), ("levtrig", 2), ("levvec", 1)],
+                 ("azi3d", 2), ("levtrig", 2), ("levvec", 1),
+                 ("aziframe", 1, None, {"frames": ALLF, "idrev": IDS}),
+                 ("polar", 1, None, {"frames": ALLF[1:]}), ("azi3d", 1, None, {"frames": HALF[1:5], "idrev": [True]}),
+                 ("intersection", 1, None, {"frames": HALF[1:], "idrev": IDS}),
+                 ("vecmix", 1, 6, {"frames": [("sw", "left-handed"), ("se", "left-handed")]}),
+                 ("coords", 1, None, {"frames": [("ws", "right-handed"), ("nw", "left-handed")]})],
 }
 
 
@@ -201,29 +221,50 @@ def heights(t, j):
     return dict((r[0], ZL[(i + j) % 3]) for i, r in enumerate(roles))
 
 
-def make_unit(name, j, n, nc=None):
-    """j-th of n evenly spaced placements of template `name` (first nc candidates)"""
+def make_unit(name, j, n, nc=None, frame=None, idrev=False):
+    """j-th of n evenly spaced placements of template `name` (first nc candidates),
+    written in the coordinate frame `frame` = (axes-xy, angles); idrev: the new
+    points are renamed (prefix "0") so that their ids sort before the known ones"""
     t = TPL[name]
     pl = placements(t)
     M = len(pl)
     idx = min(M - 1, int((j + 0.5) * M / n))
     I = pl[idx]
     z = heights(t, j)
-    pts = [(r[0], (I[r[0]][0], I[r[0]][1], z[r[0]]), r[1]) for r in t["roles"]]
-    u = Unit(name, t["dim"], pts, list(t["cands"])[:nc])
+    ren = {}
+    if idrev:
+        for r in t["roles"]:
+            if r[1] != "fix": ren[r[0]] = "0" + r[0]
+    rn = lambda v: ren.get(v, v) if isinstance(v, str) else v
+    pts = [(rn(r[0]), (I[r[0]][0], I[r[0]][1], z[r[0]]), r[1]) for r in t["roles"]]
+    cands = []
+    for c in list(t["cands"])[:nc]:
+        if c[0] == "xyz": cands.append((c[0], rn(c[1]), c[2]))
+        elif c[0] == "azi": cands.append((c[0], rn(c[1]), rn(c[2])) + tuple(c[3:]))
+        elif c[0] in ("sd", "za"): cands.append((c[0], rn(c[1]), rn(c[2])) + tuple(c[3:]))
+        else: cands.append((c[0],) + tuple(rn(v) for v in c[1:]))
+    u = Unit(name, t["dim"], pts, cands)
     u.placement = (j, n, idx, M)
+    if frame: u.frame = tuple(frame)
+    u.idrev = bool(idrev)
     return u
 
 
 def units(tier):
+    """unit keys (name, j, n, nc, frame, idrev); a tier entry is (name, placements
+    [, candidates [, options]]), options: frames = list of (axes, angles),
+    idrev = list of booleans; the product of the options is taken"""
     out = []
     only = os.environ.get("C06_ONLY")          # debugging aid, never set by registered commands
     for e in TIERS[tier]:
         name, n = e[0], e[1]
         nc = e[2] if len(e) > 2 else None
+        opt = e[3] if len(e) > 3 else {}
         if only and name not in only.split(","): continue
         t = TPL[name]
         M = len(placements(t))
-        for j in range(min(n, M)):
-            out.append((name, j, min(n, M), nc))
+        for fr in opt.get("frames", [None]):
+            for ir in opt.get("idrev", [False]):
+                for j in range(min(n, M)):
+                    out.append((name, j, min(n, M), nc, tuple(fr) if fr else None, ir))
     return out
